@@ -131,6 +131,9 @@ pub struct ModelSpec<T: HScalar> {
     /// hand-written only: whether a failing set_params stores the parameters first
     pub dirty_fail: bool,
     pub builder_made: bool,
+    /// hand-written only: multiply row i of every evaluation / derivative by rowscale[i]
+    /// (the "scaled model" of property C06)
+    pub rowscale: Option<Vec<T>>,
 }
 
 impl<T: HScalar> ModelSpec<T> {
@@ -144,6 +147,10 @@ impl<T: HScalar> ModelSpec<T> {
             fail_below: v.get("fail_below").filter(|f| !f.is_null()).map(sc::<T>),
             dirty_fail: v.get("dirty_fail").and_then(|b| b.as_bool()).unwrap_or(false),
             builder_made: v.get("builder_made").and_then(|b| b.as_bool()).unwrap_or(false),
+            rowscale: v
+                .get("rowscale")
+                .filter(|f| !f.is_null())
+                .map(|a| a.as_array().unwrap().iter().map(sc::<T>).collect()),
         }
     }
 }
@@ -211,6 +218,9 @@ impl<T: HScalar> SeparableNonlinearModel for HandModel<T> {
             let a: Vec<T> = b.deps().iter().map(|&p| self.params[p]).collect();
             for i in 0..n {
                 out[(i, j)] = quant(b.value(self.x[i], &a), self.spec.quant);
+                if let Some(rs) = &self.spec.rowscale {
+                    out[(i, j)] = out[(i, j)] * rs[i];
+                }
             }
         }
         Ok(out)
@@ -235,6 +245,9 @@ impl<T: HScalar> SeparableNonlinearModel for HandModel<T> {
             }
             for i in 0..n {
                 out[(i, j)] = quant(out[(i, j)], self.spec.quant);
+                if let Some(rs) = &self.spec.rowscale {
+                    out[(i, j)] = out[(i, j)] * rs[i];
+                }
             }
         }
         Ok(out)
